@@ -404,6 +404,70 @@ func c13Cases(g *Gen) []c13Case {
 	return cases
 }
 
+// c13SpliceCases — the equivocating server that answers tile requests at hash-ENTRY granularity.
+//
+// Input class (added because the fork enumeration above only ever serves WHOLE tiles of one log — srv=B@b / B@b,A@nA /
+// split — so every tile the client reads is the true tile of A or of B, and an honest fork is always detected): the client
+// holds a signed head of A (size a), the server presents the validly signed head of the fork B (size b, common prefix p)
+// and serves the tiles of the larger of the two trees with the hashes that the smaller tree also has spliced in entry by
+// entry ("your old records are still there"), either in every tile (emix) or only in the current, widest version of each
+// partial tile while narrower versions of the same tile stay true (emixw: a server that answers different widths of one
+// tile differently).  Whatever is served, B@b does not contain A@a (p < a, p < b), so the fork clause, the timeline
+// clause and the cache clause (util_cloracle.go) must hold; no new oracle is needed.
+// Small-scope exhaustive sweep over (tile height, a, b, p): sizes up to a few tiles so that partial tiles of every
+// width (one, two, three set bits) occur at level 0 and at level 1, both directions (b > a: the client moves forward;
+// b < a: the presented head is checked against the client's own tree), long-lived and restarted client.
+func c13SpliceCases(g *Gen) []c13Case {
+	type hs struct{ h, max int }
+	scope := []hs{{2, 13}, {3, 11}}
+	if thorough {
+		scope = []hs{{1, 9}, {2, 21}, {3, 36}, {4, 36}}
+	}
+	wseed := g.U64()%1000 + 1
+	var cases []c13Case
+	for _, sc := range scope {
+		for b := 2; b <= sc.max; b++ {
+			for a := 1; a <= sc.max; a++ {
+				if a == b {
+					continue // same size, different hash: decided without reading a tile
+				}
+				lo := a
+				if b < lo {
+					lo = b
+				}
+				for p := 0; p < lo; p++ {
+					if thorough && lo > 12 && p%4 != 0 && p < lo-4 {
+						continue
+					}
+					head := fmt.Sprintf("client.run w=%d:%d:%d:%d h=%d", wseed, a, p, b, sc.h)
+					first := fmt.Sprintf("srv=A@%d new=0 look=0:A%d", a, a-1)
+					back := fmt.Sprintf("f-= srv=A@%d new=0 look=0:A%d", a, g.Intn(a))
+					for ki, kind := range []string{"emixw", "emix"} {
+						srv := fmt.Sprintf("srv=B@%d f+=T*/%s/A@%d", b, kind, a)
+						dir := "fwd"
+						if b < a {
+							srv = fmt.Sprintf("srv=B@%d,A@%d f+=T*/%s/B@%d", b, a, kind, b)
+							dir = "bwd"
+						}
+						second := fmt.Sprintf("%s look=0:B%d look=0:B%dm", srv, b-1, g.Intn(b))
+						tag := fmt.Sprintf("splice/%s/%s/h%d", kind, dir, sc.h)
+						if !thorough && (a+b+p+ki)%2 == 0 {
+							emitOne := strings.Join([]string{head, first, second, back}, " ")
+							cases = append(cases, c13Case{emitOne, tag + "/long"})
+							continue
+						}
+						if thorough {
+							cases = append(cases, c13Case{strings.Join([]string{head, first, second, back}, " "), tag + "/long"})
+						}
+						cases = append(cases, c13Case{strings.Join([]string{head, first, "new=0", second, back}, " "), tag + "/restart"})
+					}
+				}
+			}
+		}
+	}
+	return cases
+}
+
 func c13Oracle(g *Gen, n int) {
 	if n <= 0 {
 		return
@@ -435,6 +499,10 @@ func c13Oracle(g *Gen, n int) {
 		if i%cstride == coff {
 			c13Judge(g, c)
 		}
+	}
+	// entry-level tile splices by an equivocating server: small-scope exhaustive sweep, own budget
+	for _, c := range c13SpliceCases(g) {
+		c13Judge(g, c)
 	}
 	// one honest log, two lookups in one client + another client writing the shared configuration in between
 	for i := 0; i < n/12+1; i++ {
